@@ -36,6 +36,15 @@ Qed.
 Lemma set_tally_nonempty : forall k v t, set_tally k v t <> [].
 Proof. intros k v [|[k' v'] t]; simpl; [discriminate|]. destruct (str_eqb k k'); discriminate. Qed.
 
+(** VoteResult.threshold never divides by zero (fixes/F28) *)
+Lemma np_threshold : forall power total, np (threshold power total).
+Proof.
+  intros power total. unfold threshold. destruct (Z.eqb power 0); [reflexivity|].
+  unfold go_div at 1. simpl Z.eqb. cbn [bind].
+  destruct (Z.eqb (Z.div power 100) 0) eqn:E; [reflexivity|].
+  unfold go_div. rewrite E. reflexivity.
+Qed.
+
 Section W.
   Variable to_upper : str -> str.
   Variable b58dec : str -> str.
